@@ -17,7 +17,7 @@ P = {
          "§5 C01"),
  "C02": ("other",
          "abstract interpretation: entailment of (not executed or witness-of-account or caller-is-account or Alphabet) at every site that can lower a balance",
-         "For every store/delete of an account record in every Balance method the exit facts entail: not executed, or the witness of the account keyed by that record, or the caller being it, or the Alphabet 2/3+1 multisignature; a credit is exempt only where amount >= 0 is established; the public transfer executes no effect on a path returning false. Holds for every argument tuple because every path is covered; signer sets at run time are not enumerated, hence 'other'.",
+         "For every store/delete of an account record in every Balance method the exit facts entail: not executed, or the witness of the account keyed by that record, or the caller being it, or the Alphabet 2/3+1 multisignature; a credit is exempt only where amount >= 0 is established; the public transfer executes no effect on a path returning false. Holds for every argument tuple because every path is covered; signer sets at run time are not enumerated, hence 'other'. Round 9: CheckWitness is asked about a caller-supplied address only with its length established (a refusal is reported, not a fault).",
          "§5 C02"),
  "C03": ("proof",
          "abstract interpretation: CNF must-fact dataflow over the fully inlined SSA graph of every ABI method; entailment of (effect not executed or required witness) at every normal exit",
@@ -37,7 +37,7 @@ P = {
          "§5 C06"),
  "C07": ("other",
          "term agreement witnessed key = storage key, must-facts at stores, exit-fact equivalences across both candidate representations, dispatch coverage",
-         "Decides: every effect of the candidate entry points is gated by the documented witnesses (node key and Alphabet); stored key is the witnessed key; Online on add; every effect of the state dispatch under a declared state, Offline removes / Online, Maintenance rewrite; removal deletes both representations together; an update rewrites every present representation as the stored record with only State replaced and cannot succeed with no write; exactly one UpdateStateSuccess / AddPeerSuccess / AddNode with the change; single emitters and writers. Agreement with a reference model over histories is not decided, hence 'other'. Round 6: every normal return of AddPeer/AddPeerIR/AddNode has stored the candidate.",
+         "Decides: every effect of the candidate entry points is gated by the documented witnesses (node key and Alphabet); stored key is the witnessed key; Online on add; every effect of the state dispatch under a declared state, Offline removes / Online, Maintenance rewrite; removal deletes both representations together; an update rewrites every present representation as the stored record with only State replaced and cannot succeed with no write; exactly one UpdateStateSuccess / AddPeerSuccess / AddNode with the change; single emitters and writers. Agreement with a reference model over histories is not decided, hence 'other'. Round 6: every normal return of AddPeer/AddPeerIR/AddNode has stored the candidate. Round 9: no fault of the removal/update entry points is decided on one candidate representation alone.",
          "§5 C07"),
  "C08": ("other",
          "divisor-non-zero rule over storage writers, sibling agreement of retention bounds as canonical linear terms, must-facts at ring index computations",
@@ -61,11 +61,11 @@ P = {
          "§5 C12"),
  "C13": ("other",
          "AST/type lints specific to deploy/ with positive controls + SSA dominance and taint rules",
-         "Explicitly thin: structural necessary conditions only. Index-space consistency of re-sliced ranges; no map iteration order reaching a witness script; tryDeploy/tryTransfer computed as 'local index == 0' and dominating every deploying/funding submission; committee sorted before the index search; NNS stage first; no import that can persist local progress; encoder/decoder field tables of the shared transaction data and checksum helpers agree; name constants agree across deploy, rpc/nns, common and the contracts; a closure invalidating the shared transaction clears the signature cache validated against it; Transaction.Nonce/ValidUntilBlock depend on a chain height only through the window index (SSA taint); a typed constant a call is made with agrees with the one its error wrap names; a local that starts at a negative sentinel and is branched on is assigned somewhere (copy-paste contradiction rules with embedded positive controls). Added by the deploy mutation sweep: an error is not wrapped, logged or returned on the side where it was just found nil; the 'not found' test of a position-or-sentinel local keeps position 0 with the other positions; a search loop hands out its index on the equal side; no submission is reachable only through the 'still pending' side of the monitor's in-flight query; the shared-data matcher answers true only where every field compared equal; a signature is collected only on the true side of its verification and of the checksum split. Termination/convergence under schedules and crash points, fund and window arithmetic are NOT decided (would need execution or model checking). Round 6: in the signature-collection loop the failure side of a per-member error test always goes on with the next member. Round 7: a share-out helper calling f(index, amount) from two counting loops passes adjacent index ranges. Round 8: no Hash160/Hash256/PublicKey result is a raw convert.ToBytes(…).",
+         "Explicitly thin: structural necessary conditions only. Index-space consistency of re-sliced ranges; no map iteration order reaching a witness script; tryDeploy/tryTransfer computed as 'local index == 0' and dominating every deploying/funding submission; committee sorted before the index search; NNS stage first; no import that can persist local progress; encoder/decoder field tables of the shared transaction data and checksum helpers agree; name constants agree across deploy, rpc/nns, common and the contracts; a closure invalidating the shared transaction clears the signature cache validated against it; Transaction.Nonce/ValidUntilBlock depend on a chain height only through the window index (SSA taint); a typed constant a call is made with agrees with the one its error wrap names; a local that starts at a negative sentinel and is branched on is assigned somewhere (copy-paste contradiction rules with embedded positive controls). Added by the deploy mutation sweep: an error is not wrapped, logged or returned on the side where it was just found nil; the 'not found' test of a position-or-sentinel local keeps position 0 with the other positions; a search loop hands out its index on the equal side; no submission is reachable only through the 'still pending' side of the monitor's in-flight query; the shared-data matcher answers true only where every field compared equal; a signature is collected only on the true side of its verification and of the checksum split. Termination/convergence under schedules and crash points, fund and window arithmetic are NOT decided (would need execution or model checking). Round 6: in the signature-collection loop the failure side of a per-member error test always goes on with the next member. Round 7: a share-out helper calling f(index, amount) from two counting loops passes adjacent index ranges. Round 8: no Hash160/Hash256/PublicKey result is a raw convert.ToBytes(…). Round 9: gates of nns Update/RegisterTLD (shared with C03).",
          "§5 C13"),
  "C14": ("other",
          "typestate/loop-shape analysis of the counting loop, key-schema analysis of the roster families, must-facts at acceptance and notification",
-         "Decides: roster key schemas fixed-width with len(cid) == 32 guarded; commit deletes all old n/r keys, moves every scanned u key to n||key[1:] with its value, old-n scan before any n put, each of the five loops reached on every normal path (REP writes only for a non-nil list), left only on exhaustion and with no iteration going round its operation; the signature check is reachable only through the exhausted exit of a membership loop over a per-vector collection of already counted member keys, insertion and increment only on the success branch; acceptance under counter == REP of that cid, members scanned for the vector that selects the signature list and candidates taken from that scan only (a candidate list starts empty inside the per-vector loop), true only after the REP scan is exhausted; SubmitObjectPut notifies only after verification of (cid from meta, meta, sigs) with the meta flag present. The BE16 counter byte codec is value-level and NOT decided. Added by the mutation sweep: edge-guard polarity of counting/insertion/acceptance, roster counter start (decoded last key iff there is one). Round 6: a REP number is stored under its position in the submitted list.",
+         "Decides: roster key schemas fixed-width with len(cid) == 32 guarded; commit deletes all old n/r keys, moves every scanned u key to n||key[1:] with its value, old-n scan before any n put, each of the five loops reached on every normal path (REP writes only for a non-nil list), left only on exhaustion and with no iteration going round its operation; the signature check is reachable only through the exhausted exit of a membership loop over a per-vector collection of already counted member keys, insertion and increment only on the success branch; acceptance under counter == REP of that cid, members scanned for the vector that selects the signature list and candidates taken from that scan only (a candidate list starts empty inside the per-vector loop), true only after the REP scan is exhausted; SubmitObjectPut notifies only after verification of (cid from meta, meta, sigs) with the meta flag present. The BE16 counter byte codec is value-level and NOT decided. Added by the mutation sweep: edge-guard polarity of counting/insertion/acceptance, roster counter start (decoded last key iff there is one). Round 6: a REP number is stored under its position in the submitted list. Round 9: every signature of a vector is examined; refused for length only below REP.",
          "§5 C14"),
  "C15": ("translation_validation",
          "translation validation by recompilation with the pinned compiler + AST/SSA checks of embed set, deploy order, version",
@@ -81,15 +81,15 @@ P = {
          "§5 C17"),
  "C18": ("other",
          "must-facts: validation precedes state, dispatch coverage of record types, numeric limits at the accepting exits of the validators, digit fact before every decimal Atoi",
-         "Explicitly thin. Decides: Register/RegisterTLD reach effects only after the name validator accepted the name, AddRecord/SetRecord only after the type-specific validator accepted the data and only for A/CNAME/TXT/AAAA; accepting exits establish 3 <= len <= 255, fragments 1..63, the last label validated as root (<= 16, leading letter), first and last byte of every accepted fragment in [a-z0-9] and every inner byte in [a-z0-9-] (loop 1..len-2); every decimal Atoi in a validator is reached only with a digit first byte. That the scanners accept EXACTLY the well-formed strings is NOT decided. Added by the mutation sweep: the fragment validator and safeSplitAndCheck are decided in both directions (no rejecting exit satisfiable with all documented conditions). Round 6: a decimal fragment is accepted only if it does not start with '0' or is one byte long; the zero-filled range of an elided IPv6 run and the shifted slot of the next group are adjacent (two clauses of the address scanners; the scanners as a whole stay undecided). Round 8: every key Register writes for a valid name fits the 64-byte limit.",
+         "Explicitly thin. Decides: Register/RegisterTLD reach effects only after the name validator accepted the name, AddRecord/SetRecord only after the type-specific validator accepted the data and only for A/CNAME/TXT/AAAA; accepting exits establish 3 <= len <= 255, fragments 1..63, the last label validated as root (<= 16, leading letter), first and last byte of every accepted fragment in [a-z0-9] and every inner byte in [a-z0-9-] (loop 1..len-2); every decimal Atoi in a validator is reached only with a digit first byte. That the scanners accept EXACTLY the well-formed strings is NOT decided. Added by the mutation sweep: the fragment validator and safeSplitAndCheck are decided in both directions (no rejecting exit satisfiable with all documented conditions). Round 6: a decimal fragment is accepted only if it does not start with '0' or is one byte long; the zero-filled range of an elided IPv6 run and the shifted slot of the next group are adjacent (two clauses of the address scanners; the scanners as a whole stay undecided). Round 8: every key Register writes for a valid name fits the 64-byte limit. Round 9: 'not a byte' only outside 0..255.",
          "§5 C18"),
  "C19": ("other",
          "must-facts at notification/transfer sites, canonical arithmetic terms of the shares, loop-shape of per-node transfers",
-         "Decides: Deposit only under caller = GAS and 0 < amount <= 9000*10^8 with receiver in {20-byte data, sender}; Withdraw under W(user), 0 <= amount <= 9000, fee = configured WithdrawFee once to Processing (Notary) / once per stored Alphabet key, results checked, amount*10^8 notified; Cheque pays exactly (self -> user, amount) once, checked, same terms notified, and (without Notary) only at the 2/3+1 threshold of the witnessed Alphabet members after removing the ballot of the same id; candidate fee from the witnessed key's account with the ignore marker; Emit shares floor(g/2) and floor((g - g/2)*7/8/N) over the iterated Inner Ring list; payment callbacks accept only GAS (Alphabet also NEO). The balance identity over histories is not decided, hence 'other'. Added by the mutation sweep: converses for the deposit callback and Withdraw, candidate charged exactly when not stored yet, every accepted payment reported. Round 6: a payment carrying the candidate-fee marker is never refused, whatever its amount. Round 7: the documented gate of alphabet.Emit (gate rule shared with C03) is decided here as well. Round 8: the gate of Cheque (shared with C03) is decided here as well.",
+         "Decides: Deposit only under caller = GAS and 0 < amount <= 9000*10^8 with receiver in {20-byte data, sender}; Withdraw under W(user), 0 <= amount <= 9000, fee = configured WithdrawFee once to Processing (Notary) / once per stored Alphabet key, results checked, amount*10^8 notified; Cheque pays exactly (self -> user, amount) once, checked, same terms notified, and (without Notary) only at the 2/3+1 threshold of the witnessed Alphabet members after removing the ballot of the same id; candidate fee from the witnessed key's account with the ignore marker; Emit shares floor(g/2) and floor((g - g/2)*7/8/N) over the iterated Inner Ring list; payment callbacks accept only GAS (Alphabet also NEO). The balance identity over histories is not decided, hence 'other'. Added by the mutation sweep: converses for the deposit callback and Withdraw, candidate charged exactly when not stored yet, every accepted payment reported. Round 6: a payment carrying the candidate-fee marker is never refused, whatever its amount. Round 7: the documented gate of alphabet.Emit (gate rule shared with C03) is decided here as well. Round 8: the gate of Cheque (shared with C03) is decided here as well. Round 9: payment callbacks never refuse the accepted native token (converse).",
          "§5 C19"),
  "C20": ("other",
          "storage-layout analysis: component kinds of every Find prefix and Put key (R-prefix rule, family disjointness, put/get key agreement) + must-facts for gates, id length bound and cleanup deltas",
-         "Decides every scan of reputation, audit, container estimations, neofsid and the config maps against the R-prefix rule (four genuine findings are recorded as known findings), family disjointness of constant prefixes, key-term agreement of putters and getters, the id length bound of GetContainerSize, AddKey/RemoveKey acting on every submitted key (loop left only on exhaustion), netmap.SetConfig always storing the submitted value, the gates of putContainerSize and audit.put, the cleanup deltas 3/4 with the putter's key components, and the global cleanup examining every scanned key. Multiset equality of listings is not decided, hence 'other'. Added by the mutation sweep: reputation counter continues from the stored one. Round 7: list getters and their helpers collect every item of their scan (or skip only what is already in the set being built).",
+         "Decides every scan of reputation, audit, container estimations, neofsid and the config maps against the R-prefix rule (four genuine findings are recorded as known findings), family disjointness of constant prefixes, key-term agreement of putters and getters, the id length bound of GetContainerSize, AddKey/RemoveKey acting on every submitted key (loop left only on exhaustion), netmap.SetConfig always storing the submitted value, the gates of putContainerSize and audit.put, the cleanup deltas 3/4 with the putter's key components, and the global cleanup examining every scanned key. Multiset equality of listings is not decided, hence 'other'. Added by the mutation sweep: reputation counter continues from the stored one. Round 7: list getters and their helpers collect every item of their scan (or skip only what is already in the set being built). Round 9: the per-node epoch list is keyed by container id and node.",
          "§5 C20"),
 }
 
